@@ -62,7 +62,7 @@ Proof.
   clear IH. induction H as [|t r Ht _ IHr]; [reflexivity|]. cbn [map]. rewrite IHr, (subst_nocounter j t Ht). reflexivity.
 Qed.
 
-Theorem flat_block_unrolls cfg pre forw es body rofw skip rest syms v :
+Theorem flat_block_unrolls cfg k final pre forw es body rofw skip rest syms v :
   Forall pline_ok pre ->
   t_typ forw = tokText -> tok_is_pseudo forw = true -> lower_is (t_val forw) "for" = true -> Forall plain_tok es ->
   front_symbols pre = Some syms ->
@@ -71,12 +71,12 @@ Theorem flat_block_unrolls cfg pre forw es body rofw skip rest syms v :
   t_typ rofw = tokText -> tok_is_pseudo rofw = true -> lower_is (t_val rofw) "for" = false -> lower_is (t_val rofw) "rof" = true ->
   Forall plain_tok skip -> Forall nonterm rest ->
   let out := flat_map pl_out pre ++ flat_map (fun _ : N => flat_map bl_toks body) (nseq 1 (Z.to_nat v)) ++ rest ++ [tEOF] in
-  unrolls cfg 0 out out ->
-  unrolls cfg 1 (flat_map pl_toks pre ++ (forw :: es ++ [nlt]) ++ flat_map bl_toks body ++ rofw :: skip ++ (nlt :: rest ++ [tEOF])) out.
+  unrolls cfg k out final ->
+  unrolls cfg (S k) (flat_map pl_toks pre ++ (forw :: es ++ [nlt]) ++ flat_map bl_toks body ++ rofw :: skip ++ (nlt :: rest ++ [tEOF])) final.
 Proof.
   intros Hpre Hft Hfp Hff Hes Hsy Hev Hbody Hrt Hrp Hrf Hrr Hskip Hrest out Hout.
   destruct (flat_body_run body None [] Hbody) as [at' Hrun]. cbn [app] in Hrun.
-  pose proof (U_step cfg 0 pre [] forw es body [] rofw skip rest tEOF v at' (flat_map bl_toks body) syms out
+  pose proof (U_step cfg k pre [] forw es body [] rofw skip rest tEOF v at' (flat_map bl_toks body) syms final
                 Hpre (Forall_nil _) Hft Hfp Hff Hes Hsy Hev) as Hstep.
   cbn [plbl_seg lbl_seg flat_map app map last init_list] in Hstep.
   apply Hstep; try assumption; try reflexivity.
@@ -87,7 +87,7 @@ Qed.
 
 (* the comment idiom: a block without labels or counter whose count is not positive disappears, whatever its body is
    (any lines, nested blocks included, as long as the body is one: body_run finds its closing ROF) *)
-Theorem zero_block_unrolls cfg pre forw es body cls rofw skip rest syms v d_at content' :
+Theorem zero_block_unrolls cfg k final pre forw es body cls rofw skip rest syms v d_at content' :
   Forall pline_ok pre ->
   t_typ forw = tokText -> tok_is_pseudo forw = true -> lower_is (t_val forw) "for" = true -> Forall plain_tok es ->
   front_symbols pre = Some syms ->
@@ -97,11 +97,11 @@ Theorem zero_block_unrolls cfg pre forw es body cls rofw skip rest syms v d_at c
   t_typ rofw = tokText -> tok_is_pseudo rofw = true -> lower_is (t_val rofw) "for" = false -> lower_is (t_val rofw) "rof" = true ->
   Forall plain_tok skip -> Forall nonterm rest ->
   let out := flat_map pl_out pre ++ rest ++ [tEOF] in
-  unrolls cfg 0 out out ->
-  unrolls cfg 1 (flat_map pl_toks pre ++ (forw :: es ++ [nlt]) ++ flat_map bl_toks body ++ lbl_seg cls ++ rofw :: skip ++ (nlt :: rest ++ [tEOF])) out.
+  unrolls cfg k out final ->
+  unrolls cfg (S k) (flat_map pl_toks pre ++ (forw :: es ++ [nlt]) ++ flat_map bl_toks body ++ lbl_seg cls ++ rofw :: skip ++ (nlt :: rest ++ [tEOF])) final.
 Proof.
   intros Hpre Hft Hfp Hff Hes Hsy Hev Hv Hbody Hrun Hcls Hrt Hrp Hrf Hrr Hskip Hrest out Hout.
-  pose proof (U_step cfg 0 pre [] forw es body cls rofw skip rest tEOF v d_at content' syms out
+  pose proof (U_step cfg k pre [] forw es body cls rofw skip rest tEOF v d_at content' syms final
                 Hpre (Forall_nil _) Hft Hfp Hff Hes Hsy Hev Hbody Hrun Hcls Hrt Hrp Hrf Hrr Hskip Hrest eq_refl) as Hstep.
   cbn [plbl_seg flat_map app map last init_list] in Hstep.
   apply Hstep.
@@ -124,7 +124,7 @@ Proof.
     rewrite <- app_assoc. reflexivity.
 Qed.
 
-Theorem counter_block_unrolls cfg pre c forw es body rofw skip rest syms v :
+Theorem counter_block_unrolls cfg k final pre c forw es body rofw skip rest syms v :
   Forall pline_ok pre -> is_label c ->
   t_typ forw = tokText -> tok_is_pseudo forw = true -> lower_is (t_val forw) "for" = true -> Forall plain_tok es ->
   front_symbols pre = Some syms ->
@@ -133,13 +133,13 @@ Theorem counter_block_unrolls cfg pre c forw es body rofw skip rest syms v :
   t_typ rofw = tokText -> tok_is_pseudo rofw = true -> lower_is (t_val rofw) "for" = false -> lower_is (t_val rofw) "rof" = true ->
   Forall plain_tok skip -> Forall nonterm rest ->
   let out := flat_map pl_out pre ++ flat_map (fun j => map (subst_body c [] j) (flat_map bl_toks body)) (nseq 1 (Z.to_nat v)) ++ rest ++ [tEOF] in
-  unrolls cfg 0 out out ->
-  unrolls cfg 1 (flat_map pl_toks pre ++ (mkT tokText c :: forw :: es ++ [nlt]) ++ flat_map bl_toks body ++ rofw :: skip ++ (nlt :: rest ++ [tEOF])) out.
+  unrolls cfg k out final ->
+  unrolls cfg (S k) (flat_map pl_toks pre ++ (mkT tokText c :: forw :: es ++ [nlt]) ++ flat_map bl_toks body ++ rofw :: skip ++ (nlt :: rest ++ [tEOF])) final.
 Proof.
   intros Hpre Hc Hft Hfp Hff Hes Hsy Hev Hbody Hrt Hrp Hrf Hrr Hskip Hrest out Hout.
   destruct (cnt_body_run body None [] Hbody) as [at' Hrun]. cbn [app] in Hrun.
   assert (Hhl : plbl_ok [(c, @nil token)]) by (constructor; [split; [exact Hc|constructor]|constructor]).
-  pose proof (U_step cfg 0 pre [(c, [])] forw es body [] rofw skip rest tEOF v at' (flat_map bl_toks body) syms out
+  pose proof (U_step cfg k pre [(c, [])] forw es body [] rofw skip rest tEOF v at' (flat_map bl_toks body) syms final
                 Hpre Hhl Hft Hfp Hff Hes Hsy Hev) as Hstep.
   cbn [plbl_seg lbl_seg flat_map app map last init_list fst snd] in Hstep.
   apply Hstep; try assumption; try reflexivity.
